@@ -443,5 +443,49 @@ theorem c19_shape_monitor_monitor_Monitor_update :
     Shapes.simul_monitor_monitor_Monitor_update =
    ["stats.Update", "buckets.Update"] := rfl
 
+theorem c19_shape_monitor_measure_NewTimeMeasure :
+    Shapes.simul_monitor_measure_NewTimeMeasure =
+   ["NewTimeMeasureWithHost"] := rfl
+
+theorem c19_shape_monitor_measure_NewTimeMeasureWithHost :
+    Shapes.simul_monitor_measure_NewTimeMeasureWithHost =
+   ["tm.reset"] := rfl
+
+theorem c19_shape_monitor_measure_TimeMeasure_Record :
+    Shapes.simul_monitor_measure_TimeMeasure_Record =
+   ["time.Since", "float64", "newSingleMeasureWithHost", "getDiffRTime", "Wall.Record",
+     "CPU.Record", "User.Record", "tm.reset"] := rfl
+
+theorem c19_shape_monitor_measure_TimeMeasure_reset :
+    Shapes.simul_monitor_measure_TimeMeasure_reset =
+   ["getRTime", "newSingleMeasureWithHost", "newSingleMeasureWithHost", "time.Now"] := rfl
+
+theorem c19_shape_monitor_measure_NewCounterIOMeasure :
+    Shapes.simul_monitor_measure_NewCounterIOMeasure =
+   ["NewCounterIOMeasureWithHost"] := rfl
+
+theorem c19_shape_monitor_measure_NewCounterIOMeasureWithHost :
+    Shapes.simul_monitor_measure_NewCounterIOMeasureWithHost =
+   ["counter.Tx", "counter.Rx", "counter.MsgTx", "counter.MsgRx"] := rfl
+
+theorem c19_shape_monitor_measure_CounterIOMeasure_Record :
+    Shapes.simul_monitor_measure_CounterIOMeasure_Record =
+   ["counter.Rx", "float64", "newSingleMeasureWithHost", "counter.Tx", "float64",
+     "newSingleMeasureWithHost", "counter.MsgRx", "float64", "newSingleMeasureWithHost",
+     "counter.MsgTx", "float64", "newSingleMeasureWithHost", "read.Record", "written.Record",
+     "readMsg.Record", "writtenMsg.Record"] := rfl
+
+theorem c19_shape_monitor_measure_RecordSingleMeasureWithHost :
+    Shapes.simul_monitor_measure_RecordSingleMeasureWithHost =
+   ["newSingleMeasureWithHost", "sm.Record"] := rfl
+
+theorem c19_shape_monitor_measure_newSingleMeasureWithHost :
+    Shapes.simul_monitor_measure_newSingleMeasureWithHost =
+   [] := rfl
+
+theorem c19_shape_monitor_measure_singleMeasure_Record :
+    Shapes.simul_monitor_measure_singleMeasure_Record =
+   ["send"] := rfl
+
 
 end C19
